@@ -17,6 +17,12 @@ CLAIMED = {
          "slice/append lemmas over the proved header codec, CRC residue theorem; correspondence check"),
  "C08": ("5/C08", "For every TLV type and value, every parameter tuple of the six concrete TLVs and every (class, foreign type) pair: pack = 727.0-B-5 layout, decode(pack ++ suffix) returns the parameters, consumed/reported lengths len+2 / len+1, > 255 octets refused, foreign types refused with TlvTypeMissmatch (eight defects repaired).",
          "slice and list lemmas, 256-case sweeps for nibble fields, finite enum case analysis; correspondence check exhaustive on two-octet TLVs and 1-2 octet UTF-8"),
+ "C09": ("5/C09", "Per self-delimiting unit (space packet header, PUS TC/TM, byte fields, CFDP header, LV/TLV and concrete TLVs, reserved messages, USLP headers/frames, File Data PDU, ...): theorems that decoding depends only on the declared octets (no_overread), that any suffix is irrelevant, and that back-to-back units split by the reported lengths; for PDUs nothing beyond the declared length is folded in. The harness appends look-alike continuations (second unit, TLV-/segment-request-shaped octets) to valid units of every registered decoder. Entry points without a theorem yet are explored only (listed in the evidence).",
+         "decoder-equals-spec and slice/firstn lemmas per unit, collected from Proofs/*.v (Props/C09.v generated and re-checked); suffix correspondence + oracle on the implementation"),
+ "C10": ("5/C10", "Per decoder entry point: totality over EVERY octet string (result is a value or a documented error class; the model carries explicit IndexError/struct.error/TypeError/... outcomes at every indexing, unpacking and enum site, so this is a real obligation) and rejection of every strict prefix of a packed unit; loops under fuel with fuel-sufficiency lemmas. The harness drives every truncation, leading-octet substitution and garbage through every registered decoder with the exception class compared. Entry points without a theorem yet are explored only.",
+         "case analysis of decoder guards on explicit cells (decoder = spec theorems), collected from Proofs/*.v (Props/C10.v generated and re-checked); targeted-malformed and garbage correspondence"),
+ "C11": ("5/C11", "Per mutable class: after ANY sequence of documented setter calls the object equals a freshly constructed one with the final values (up to the cached CRC), hence reported length = packed length = length field, pack is idempotent, constructors return the caller's configuration unchanged (modelled as an explicit caller-config-after component). Aliasing beyond that explicit component is exercised by the adapters, not proved.",
+         "invariant 'cached length = computed length' preserved by every setter, induction over operation lists; setter-history correspondence with the caller's objects compared before/after"),
  "C13": ("5/C13", "For every octet stream, every set of cut positions and every interleaving of append/parse calls the (repaired) parser returns what one parse over the whole stream returns; registered packets come back complete, once, in order with the queue holding exactly the unconsumed remainder; junk is skipped. Model proved equal to an independent suffix-walk spec.",
          "refinement to spec_stream, strong induction on the suffix, induction over operation histories; correspondence on all 2^(n-1) fragmentations of streams <= 16 octets"),
  "C14": ("5/C14", "see evidence", "integer calendar arithmetic in Coq; correspondence check"),
